@@ -225,7 +225,7 @@ def run(rep, tier):
         rep.call(row_coverage.group_tail, rep, prog, "C05.kernel-rows")
         rep.call(row_coverage.tail_complete, rep, prog, "C05.tail-complete")
         rep.call(row_coverage.zip_store, rep, prog, "C05.store-every-pixel")
-        rep.call(row_coverage.tail_reached, rep, prog, "C05.tail-reached", {"x86": 4, "x86-rayon": 4}.get(cfg, 1))
+        rep.call(row_coverage.tail_reached, rep, prog, "C05.tail-reached", {"x86": 4, "x86-rayon": 4, "wasm": 1}.get(cfg, 0))
         rep.call(index_rules.cropped_row_slices, rep, prog, "C05.view-rect")
         # the owned containers hand out exactly height rows of exactly width pixels (none for a
         # zero width, whatever the buffer holds beyond the image)
